@@ -2,7 +2,7 @@ from vlib.pipeline import Group
 MODEL = ["@model/gmp_model.c", "@model/io_model.c", "@model/globals_mpq.c"]
 GROUPS = [
     Group("qsc/QScopy_prob", "qs_copy.c", tus=["qsopt_mpq.c", "allocrus.c"], model=MODEL, dfcc=False,
-          remove_bodies=["mpq_QScreate_prob", "mpq_QSfree_prob"], unwind=5, kind="bounded",
+          remove_bodies=["mpq_QScreate_prob", "mpq_QSfree_prob"], unwind=5, kind="bounded", flags=["--no-malloc-may-fail"],
           bound="nstruct <= 3 (column and integer-mark loops completely unwound, unwinding assertions on); nrows <= 4 and all values symbolic; every combination of present/absent pricing work arrays",
           must_fail=["reach_end", "reach_copy_ok"], functions=["QScopy_prob"], props=["C16", "C17"],
           assumed=["qsc/QScopy_prob: QScreate_prob (fresh empty problem, as qsopt.c:512), ILLlib_newrows/ILLlib_addcol (argument-recording stubs; their effect is C06), symbol table, ILLutil_str, reporter copy and QSfree_prob are stubs"]),
